@@ -879,6 +879,13 @@ func report(c *core.Ctx, spec gens.JPExpr, t *tree, fs []finding) {
 			}
 		}
 		x := s.Build()
+		if clampedStartReading(c, s, x, st, g) {
+			// known finding (shared with C05): Locate / Walk clamp the start of a
+			// negative-step slice that lies beyond the array, Get selects nothing.
+			cs := caseT{Path: s, Text: x.String(), Data: st.encoded(), Repr: g.repr, Eval: g.eval, Kind: "negative-step-start-clamped"}
+			c.Fail(core.Sig(g.eval, "negative-step-start-clamped"), cs, len(s)*1000+len(st.show()), g.exp, g.obs+"   ["+g.eval+" of "+x.String()+" on "+g.repr+" form of "+st.show()+"]")
+			continue
+		}
 		if startElementReading(c, s, x, st, g) {
 			// known finding: Has / First read a slice over a reflected slice or array
 			// as the element at its start. Only cases whose outcome is what that
@@ -900,43 +907,116 @@ func startElementReading(c *core.Ctx, spec gens.JPExpr, x jp.Expr, t *tree, f fi
 	if (f.eval != "Has" && f.eval != "First") || gens.ReprClass(f.repr) != "reflect" || !spec.HasFrag("slice") {
 		return false
 	}
-	alt := make(gens.JPExpr, len(spec))
+	var at []int // positions of the slice fragments
 	for i, fr := range spec {
 		if fr.K == "slice" {
-			start := 0
-			if len(fr.S) > 0 {
-				start = fr.S[0]
-			}
-			fr = gens.JPNth(start)
+			at = append(at, i)
 		}
-		alt[i] = fr
 	}
-	ax := alt.Build()
 	for _, r := range t.reprs {
 		if r.Name != f.repr {
 			continue
 		}
-		want := doGet(c, ax, r.Value)
-		if want.pv != nil {
-			return false
-		}
-		if f.eval == "Has" {
-			has := guard(c, func(res *evalRes) { res.flag = x.Has(r.Value) })
-			return has.pv == nil && has.flag == (len(want.vals) > 0)
-		}
+		has := guard(c, func(res *evalRes) { res.flag = x.Has(r.Value) })
 		ff := guard(c, func(res *evalRes) { res.one, res.flag = x.FirstFound(r.Value) })
-		if ff.pv != nil || ff.flag != (len(want.vals) > 0) {
+		if has.pv != nil || ff.pv != nil {
 			return false
 		}
-		if !ff.flag {
-			return true
-		}
-		for _, g := range want.vals {
-			if same(ff.one, g) {
+		// which slices meet a reflected container depends on the data: any
+		// non-empty subset of them read as start elements may explain the result
+		for mask := 1; mask < 1<<len(at); mask++ {
+			alt := append(gens.JPExpr{}, spec...)
+			for j, i := range at {
+				if mask&(1<<j) != 0 {
+					start := 0
+					if len(spec[i].S) > 0 {
+						start = spec[i].S[0]
+					}
+					alt[i] = gens.JPNth(start)
+				}
+			}
+			want := doGet(c, alt.Build(), r.Value)
+			if want.pv != nil {
+				continue
+			}
+			if f.eval == "Has" {
+				if has.flag == (len(want.vals) > 0) {
+					return true
+				}
+				continue
+			}
+			if ff.flag != (len(want.vals) > 0) {
+				continue
+			}
+			if !ff.flag {
 				return true
+			}
+			for _, g := range want.vals {
+				if same(ff.one, g) {
+					return true
+				}
 			}
 		}
 		return false
+	}
+	return false
+}
+
+// clampedStartReading reports whether Locate or Walk, failing against Get on
+// the simple form, report exactly the locations of the pathref reading that
+// clamps out-of-range slice bounds (Python), for a path with a negative-step
+// slice. Get agrees with the unclamped reading there (C05 finding).
+func clampedStartReading(c *core.Ctx, spec gens.JPExpr, x jp.Expr, t *tree, f finding) bool {
+	if (f.eval != "Locate" && f.eval != "Walk") || f.repr != "simple" {
+		return false
+	}
+	neg := false
+	for _, fr := range spec {
+		if fr.K == "slice" {
+			if _, _, sp := gens.SliceParts(fr); sp < 0 {
+				neg = true
+			}
+		}
+	}
+	if !neg {
+		return false
+	}
+	var res evalRes
+	if f.eval == "Locate" {
+		res = guard(c, func(r *evalRes) { r.paths = x.Locate(t.simple, 0) })
+	} else {
+		res = guard(c, func(r *evalRes) {
+			x.Walk(t.simple, func(p jp.Expr, _ []any) { r.paths = append(r.paths, append(jp.Expr{}, p...)) })
+		})
+	}
+	if res.pv != nil {
+		return false
+	}
+	got := make([]string, 0, len(res.paths))
+	for _, p := range res.paths {
+		k, _, ok := locOf(p, t.simple, false)
+		if !ok {
+			return false
+		}
+		got = append(got, k)
+	}
+	sort.Strings(got)
+	for _, v := range pathref.Variants {
+		if !v.Clamp {
+			continue
+		}
+		r := pathref.SelectSpec(spec, t.simple, v)
+		if r.Open {
+			continue
+		}
+		keys := make([]string, len(r.Hits))
+		for i, h := range r.Hits {
+			keys[i] = gens.LocKey(h.Loc)
+		}
+		sort.Strings(keys)
+		if sameStrings(got, keys) {
+			return true
+		}
 	}
 	return false
 }
@@ -1055,6 +1135,20 @@ func replay(c *core.Ctx, raw json.RawMessage) {
 	for i := 0; i < 3; i++ {
 		fs, _ := examine(c, cs.Path, cs.Path.Build(), t, &only{eval: cs.Eval, family: gens.ReprFamily(cs.Repr)})
 		for _, f := range fs {
+			if f.eval == cs.Eval && cs.Kind == "negative-step-start-clamped" {
+				if clampedStartReading(c, cs.Path, cs.Path.Build(), t, f) {
+					c.Fail(core.Sig(f.eval, "negative-step-start-clamped"), cs, len(cs.Path), f.exp, f.obs)
+					return
+				}
+				continue
+			}
+			if f.eval == cs.Eval && cs.Kind == "slice-read-as-start-element" {
+				if startElementReading(c, cs.Path, cs.Path.Build(), t, f) {
+					c.Fail(core.Sig(f.eval, "slice-read-as-start-element-by-reflection"), cs, len(cs.Path), f.exp, f.obs)
+					return
+				}
+				continue
+			}
 			if f.eval == cs.Eval && (cs.Kind == "" || f.kind == cs.Kind) {
 				c.Fail(signature(cs.Path, t, f, filterBlamed(c, cs.Path, t, f)), cs, len(cs.Path), f.exp, f.obs)
 				return
